@@ -424,3 +424,30 @@ func CutsBetweenUnorderedMarks(line string) string {
 
 // LooksBehindWithoutLength violates R2.22.
 func LooksBehindWithoutLength(s string) bool { return len(s) >= 2 && s[len(s)-3] == ' ' }
+
+// PointsAtLoopVariable violates RX.LV: every element ends up pointing at the last item.
+type Titled struct {
+	Title string
+	Src   *string
+}
+
+func PointsAtLoopVariable(titles []string) []Titled {
+	var out []Titled
+	for _, t := range titles {
+		out = append(out, Titled{Title: t, Src: &t})
+	}
+	// accepted forms: a copy per iteration, a callee that does not keep the pointer, leaving the loop at once
+	var first *string
+	for _, t := range titles {
+		t := t
+		out = append(out, Titled{Title: t, Src: &t})
+	}
+	for _, t := range titles {
+		if len(t) > 3 {
+			first = &t
+			break
+		}
+	}
+	_ = first
+	return out
+}
